@@ -140,6 +140,17 @@ pub fn judge_with_at(c: &Case, x: &Vec<u8>, st: &mut Stats, deep: bool) -> Verdi
         Ok(r) => r,
         Err(_) => return Ok(()), // C03's business
     };
+    // "reports an incomplete result": the error value itself, asked with method syntax (which an inherent method of the same
+    // name would intercept), and the Result that carries it, flag it incomplete and not complete
+    if let Err(e @ (E2::Incomplete(_) | E2::Partial(..))) = r {
+        use ppp::PartialResult;
+        let flags = crate::engine::guard(|| (e.is_incomplete(), e.is_complete(), r.is_incomplete(), r.is_complete()));
+        if let Ok(f) = flags {
+            if f != (true, false, true, false) {
+                return Err(Fail::new("incomplete-result-not-flagged", shape2(x), ENTRY, "error.is_incomplete(), !error.is_complete(), and the same on the Result", format!("{:?}: (error.is_incomplete, error.is_complete, result.is_incomplete, result.is_complete) = {:?}", e, f)));
+            }
+        }
+    }
     match r {
         Err(E2::Incomplete(n)) => {
             st.nontrivial(c.digest());
